@@ -27,6 +27,7 @@ import (
 	"github.com/cloudflare/circl/kem/schemes"
 	"github.com/cloudflare/circl/zz_verif/ref/mlkem"
 	"github.com/cloudflare/circl/zz_verif/ref/mont"
+	"github.com/cloudflare/circl/zz_verif/ref/prodgen"
 	"github.com/cloudflare/circl/zz_verif/vlib"
 	"golang.org/x/crypto/sha3"
 	"pgregory.net/rapid"
@@ -164,7 +165,7 @@ func drawScalar(t *rapid.T, c *mont.Curve, label string) ([]byte, string) {
 	return k, kind
 }
 
-var uKinds = []string{"tiny-output-preimage", "tiny-output-preimage", "zero", "one", "p-1", "p", "p+1", "low-order", "low-order", "low-order+alias", "p+small", "all-ones", "small", "near-p", "limb-edge", "twist", "curve", "noncanonical-random", "random", "random"}
+var uKinds = []string{"tiny-output-preimage", "tiny-output-preimage", "limb-boundary", "limb-boundary", "limb-boundary", "zero", "one", "p-1", "p", "p+1", "low-order", "low-order", "low-order+alias", "p+small", "all-ones", "small", "near-p", "limb-edge", "twist", "curve", "noncanonical-random", "random", "random"}
 
 func drawU(t *rapid.T, c *mont.Curve, label string) ([]byte, string) {
 	n := c.Size
@@ -173,6 +174,16 @@ func drawU(t *rapid.T, c *mont.Curve, label string) ([]byte, string) {
 	width := new(big.Int).Lsh(one, uint(8*n))
 	var v *big.Int
 	switch kind {
+	case "limb-boundary":
+		// next to a limb boundary / a power of two / a multiple of p: the carry and borrow chains of the
+		// canonical reduction of the peer value
+		cc := uint64(19)
+		var extra *big.Int
+		if n == 56 {
+			cc = 1
+			extra = new(big.Int).Lsh(one, 224)
+		}
+		v, _ = prodgen.Boundary(t, n/8, cc, c.P, extra, label+".b")
 	case "tiny-output-preimage":
 		v = big.NewInt(0) // replaced by the caller, who knows the scalar
 	case "zero":
@@ -586,9 +597,9 @@ func TestC06Shared(t *testing.T) {
 	for _, c := range []*mont.Curve{mont.C25519, mont.C448} {
 		c := c
 		t.Run(c.Name, func(t *testing.T) {
-			n := vlib.N(1200, 6000)
+			n := vlib.N(900, 6000)
 			if c.Bits == 448 {
-				n = vlib.N(600, 3500)
+				n = vlib.N(450, 3500)
 			}
 			vlib.Check(t, n, func(t *rapid.T) { sharedCase(t, c) })
 		})
